@@ -877,6 +877,8 @@ def correspond(ctx):
                     if d:
                         if flanked_unlabelled_class(d, m):
                             ctx.dist('known-finding-cases(unlabelled-flanked-double-bond)')
+                        elif signature_of(d, m, spec) == 'C02/atom-map-over-9999':
+                            ctx.dist('known-finding-cases(atom-map-over-9999)')
                         else:
                             ctx.cov['disagreements_checked'] += 1
                         inp = {'kind': 'roundtrip', 'mol': wire.mol_to_ints(m), 'spec': spec, 'draw_seed': seed, 'first': first, 'name': name}
@@ -911,7 +913,9 @@ def correspond(ctx):
                 ctx.count(('R', spec, tuple(wire.mol_to_ints(m)), seed), m.bonds_count > 0)
                 if has_stereo(m) and '!s' not in spec:
                     ctx.dist('model-reread-with-stereo-marks')
-                if not got.startswith('ok iso'):
+                if 'm' in spec and max(m._atoms) > 9999 and got.startswith('reader lib:IncorrectSmiles'):
+                    ctx.dist('model-reread-agrees-with-known-finding(atom-map-over-9999)')  # the reader model rejects it too
+                elif not got.startswith('ok iso'):
                     ctx.cov['disagreements_checked'] += 1
                     ctx.broke('relational', 'model-reread', f'{name}/{tag} [{spec!r}] {got}')
                     _state.setdefault('disagree', []).append((m, spec, seed, name))
